@@ -282,7 +282,7 @@ fn shape_class(s: &FriShape, nq: usize) -> String {
 
 pub fn c06(ctx: &mut Ctx) {
     let scenario = "core.c06";
-    let n_inst: u64 = if ctx.is_quick() { 400 } else { 12_000 };
+    let n_inst: u64 = if ctx.is_quick() { 4_000 } else { 40_000 };
     for k in 0..n_inst {
         if !ctx.mine(k) {
             continue;
@@ -456,7 +456,7 @@ fn kind_of(name: &str) -> String {
 
 pub fn c07(ctx: &mut Ctx) {
     let scenario = "core.c07";
-    let n_inst: u64 = if ctx.is_quick() { 250 } else { 8_000 };
+    let n_inst: u64 = if ctx.is_quick() { 2_500 } else { 30_000 };
     let per_kind = if ctx.is_quick() { 4 } else { 12 };
     for k in 0..n_inst {
         if !ctx.mine(k) {
